@@ -173,7 +173,7 @@ def run(run: Run) -> int:
     outs_by_seed = {}
     for hs, pre in (("0", 0), ("1", 1000), ("2", 50000), ("3", 7)):
         env = dict(os.environ, PYTHONHASHSEED=hs)
-        code = f"import sys; sys.path.insert(0,'/verif'); from harness import c12; c12.child({run.seed}, {nchild}, {pre})"
+        code = f"import sys; sys.path.insert(0,{str(__import__('harness.common', fromlist=['VERIF']).VERIF)!r}); from harness import c12; c12.child({run.seed}, {nchild}, {pre})"
         p = subprocess.run([sys.executable, "-B", "-W", "ignore", "-c", code], env=env, capture_output=True, text=True, timeout=900)
         line = [l for l in p.stdout.splitlines() if l.startswith("C12-CHILD ")]
         outs_by_seed[hs] = json.loads(line[0][len("C12-CHILD "):]) if line else {"error": p.stderr[-400:]}
